@@ -35,7 +35,8 @@ static const char *socket_str_states[] = {[RTR_CONNECTING] = "RTR_CONNECTING",
 					  [RTR_ERROR_NO_INCR_UPDATE_AVAIL] = "RTR_ERROR_NO_INCR_UPDATE_AVAIL",
 					  [RTR_ERROR_FATAL] = "RTR_ERROR_FATAL",
 					  [RTR_ERROR_TRANSPORT] = "RTR_ERROR_TRANSPORT",
-					  [RTR_SHUTDOWN] = "RTR_SHUTDOWN"};
+					  [RTR_SHUTDOWN] = "RTR_SHUTDOWN",
+					  [RTR_CLOSED] = "RTR_CLOSED"};
 
 int rtr_init(struct rtr_socket *rtr_socket, struct tr_socket *tr, struct pfx_table *pfx_table,
 	     struct spki_table *spki_table, const unsigned int refresh_interval, const unsigned int expire_interval,
@@ -249,6 +250,9 @@ void rtr_stop(struct rtr_socket *rtr_socket)
 
 RTRLIB_EXPORT const char *rtr_state_to_str(enum rtr_socket_state state)
 {
+	if (state >= sizeof(socket_str_states) / sizeof(socket_str_states[0]))
+		return NULL;
+
 	return socket_str_states[state];
 }
 
